@@ -4,6 +4,7 @@ import UberjobModel.Lemmas.ExecFinal
 import UberjobModel.Lemmas.StaleExec
 import UberjobModel.Props.C04
 import UberjobModel.Lemmas.ExecProd
+import UberjobModel.Props.C03
 /-!
 # C05 — exactly the out-of-date stored values are rebuilt; a repeated run does nothing
 
@@ -199,19 +200,11 @@ theorem stale_nil_of_fresh {P : Input} (h : ∀ x, P.isStale x = false) : P.stal
   have := h x
   simp [Input.isStale, hx] at this
 
-/-- **A run repeated immediately, with no output requested, performs no call, no read and no write — as a statement about
-    what is executed.**  `P2` is the second run's input: the same plan and registry, no output, and the stale set its stale
-    check computes from the stores the first run left (any first run that returned normally, under any schedule).  Then the
-    graph handed to the engine is EMPTY, so in every reachable state of every schedule nothing has begun. -/
-theorem C05_repeated_run_nothing {P : Input} {w0 : World} {F : Option Int} {c0 : Int} (S : Setup P w0 F c0)
-    {cfg : Engine.Cfg} (hw : 1 ≤ cfg.workers) {s : Engine.St} (h : Engine.Reach (engineGraph P) cfg s)
-    (hc : s.coord = .returned false) (hf : s.failed = [])
-    (P2 : Input) (hsame : P2.toLPlan = P.toLPlan) (hout : P2.out = none)
-    (hstale : ∀ x, P2.isStale x = isStale P2.toLPlan (execOrder P (initX w0 c0) s.okd).w F x) :
+/-- If nothing is out of date and no output is requested, the graph handed to the engine is empty, so nothing begins. -/
+theorem empty_when_nothing_stale (P2 : Input) (hout : P2.out = none) (hfresh : ∀ x, P2.isStale x = false) :
     (engineGraph P2).nodes = [] ∧
     ∀ (cfg2 : Engine.Cfg) (s2 : Engine.St), Engine.Reach (engineGraph P2) cfg2 s2 → s2.begun = [] := by
-  have hfresh := (C05_end_to_end S hw h hc hf).2
-  have hst : P2.stale = [] := stale_nil_of_fresh (fun x => by rw [hstale x, hsame]; exact hfresh x)
+  have hst : P2.stale = [] := stale_nil_of_fresh hfresh
   have hreq : required P2 = [] := by simp [required, Input.isStale, hst]
   have hpo : physOut P2 = none := by simp [physOut, hout]
   have hn : (physFinal P2).nodes = [] := by
@@ -225,6 +218,33 @@ theorem C05_repeated_run_nothing {P : Input} {w0 : World} {F : Option Int} {c0 :
   have := Engine.begun_in_nodes (engine_wf P2) h2 x hx
   rw [he] at this
   cases this
+
+/-- **A run repeated immediately, with no output requested, performs no call, no read and no write — as a statement about
+    what is executed.**  `P2` is the second run's input: the same plan and registry, no output, and the stale set its stale
+    check computes from the stores the first run left (any first run that returned normally, under any schedule).  Then the
+    graph handed to the engine is EMPTY, so in every reachable state of every schedule nothing has begun. -/
+theorem C05_repeated_run_nothing {P : Input} {w0 : World} {F : Option Int} {c0 : Int} (S : Setup P w0 F c0)
+    {cfg : Engine.Cfg} (hw : 1 ≤ cfg.workers) {s : Engine.St} (h : Engine.Reach (engineGraph P) cfg s)
+    (hc : s.coord = .returned false) (hf : s.failed = [])
+    (P2 : Input) (hsame : P2.toLPlan = P.toLPlan) (hout : P2.out = none)
+    (hstale : ∀ x, P2.isStale x = isStale P2.toLPlan (execOrder P (initX w0 c0) s.okd).w F x) :
+    (engineGraph P2).nodes = [] ∧
+    ∀ (cfg2 : Engine.Cfg) (s2 : Engine.St), Engine.Reach (engineGraph P2) cfg2 s2 → s2.begun = [] := by
+  exact empty_when_nothing_stale P2 hout
+    (fun x => by rw [hstale x, hsame]; exact (C05_end_to_end S hw h hc hf).2 x)
+
+/-- The same after a run WITH PRODUCERS (`C03_end_to_end_prod`): dependent sources were refreshed by their producers, and a run
+    repeated immediately executes nothing — no producer either. -/
+theorem C05_repeated_run_nothing_prod {P : Input} {pr : Nat → Option Nat} {w0 : World} {F : Option Int} {c0 : Int}
+    (S : SetupP P pr w0 F c0)
+    {cfg : Engine.Cfg} (hw : 1 ≤ cfg.workers) {s : Engine.St} (h : Engine.Reach (engineGraph P) cfg s)
+    (hc : s.coord = .returned false) (hf : s.failed = [])
+    (P2 : Input) (hsame : P2.toLPlan = P.toLPlan) (hout : P2.out = none)
+    (hstale : ∀ x, P2.isStale x = isStale P2.toLPlan (execOrderP P pr (initX w0 c0) s.okd).w F x) :
+    (engineGraph P2).nodes = [] ∧
+    ∀ (cfg2 : Engine.Cfg) (s2 : Engine.St), Engine.Reach (engineGraph P2) cfg2 s2 → s2.begun = [] :=
+  empty_when_nothing_stale P2 hout
+    (fun x => by rw [hstale x, hsame]; exact (C03_end_to_end_prod S hw h hc hf).2.2.2.2 x)
 
 /-- ... and such a second run exists for every first run: the same plan with the empty stale set is what its stale check
     returns (`C05_end_to_end`), so the hypotheses above are satisfiable by construction. -/
